@@ -330,6 +330,23 @@ def q(x):
     return "(%d # %d)" % (f.numerator, f.denominator) if f.numerator >= 0 else "((%d) # %d)" % (f.numerator, f.denominator)
 
 
+def fx(x, digits=18):
+    """Decimal literal (Dec m e) of the model's execution instance; floats keep 16 significant digits."""
+    if isinstance(x, float):
+        f = F(repr(x))
+    else:
+        f = F(x)
+    v = f * 10 ** digits
+    n = (2 * v.numerator + v.denominator) // (2 * v.denominator)
+    e = -digits
+    while n and n % 10 == 0 and e < 0:
+        n //= 10
+        e += 1
+    if n == 0:
+        e = 0
+    return "(Dec %s %s)" % ("(%d)" % n if n < 0 else "%d" % n, "(%d)" % e if e < 0 else "%d" % e)
+
+
 def cs(s):
     if any(ord(c) < 32 or ord(c) > 126 for c in s):
         raise ValueError("non-ASCII text in a model case: %r" % s)
@@ -337,7 +354,7 @@ def cs(s):
 
 
 def qv(v):
-    return "(GV %s %s %s)" % tuple(q(float(x)) for x in v)
+    return "(GV %s %s %s)" % tuple(fx(float(x)) for x in v)
 
 
 def qm(m):
@@ -346,8 +363,8 @@ def qm(m):
 
 def coq_lat(L):
     return "(LD %s %s %s %s %s %s %s %s %s %s %s %s %s %s)" % (
-        q(L["a"]), q(L["b"]), q(L["c"]), q(L["ar"]), q(L["br"]), q(L["cr"]), q(L["ca"]), q(L["cb"]), q(L["cg"]),
-        qm(L["metrics"]), qm(L["base"]), qm(L["normbase"]), qm(L["isotropicunit"]), q(EPS_Q))
+        fx(L["a"]), fx(L["b"]), fx(L["c"]), fx(L["ar"]), fx(L["br"]), fx(L["cr"]), fx(L["ca"]), fx(L["cb"]), fx(L["cg"]),
+        qm(L["metrics"]), qm(L["base"]), qm(L["normbase"]), qm(L["isotropicunit"]), fx(EPS_Q))
 
 
 def coq_loop(cols):
@@ -373,24 +390,24 @@ From DS Require Import Model.C11_LookupDefs Model.C07_Text Model.C07_SymopText M
 Import ListNotations.
 Open Scope Z_scope.
 Open Scope string_scope.
-Definition qz (x : Q) : list Z := let y := Qred x in [Qnum y; Zpos (Qden y)].
 Definition enc_src (s : sgsrc) : list Z :=
   match s with FromOps s => [0; sg_number s] | FromOpsReordered s => [1; sg_number s] | FromId s => [2; sg_number s] | Custom => [3; 0] end.
-Definition enc_atom (a : oatom (T:=Q)) : string * string * list Z :=
-  (o_label a, o_elem a, ([vx (o_pos a); vy (o_pos a); vz (o_pos a); (if o_aniso a then 1 else 0)] ++ qz (o_occ a) ++ flat_map qz (flat (o_U a)))%list).
-Definition enc (r : res (result (T:=Q))) :=
+Definition dz (d : dec) : list Z := [d_m d; d_e d].
+Definition enc_atom (a : oatom (T:=dec)) : string * string * list Z :=
+  (o_label a, o_elem a, ([vx (o_pos a); vy (o_pos a); vz (o_pos a); (if o_aniso a then 1 else 0)] ++ dz (o_occ a) ++ flat_map dz (flat (o_U a)))%list).
+Definition enc (r : res (result (T:=dec))) :=
   match r with
-  | Ok x => (0, enc_src (r_sg x), map enc_atom (r_atoms x), match r_cell x with Some l => flat_map qz l | None => [] end)
+  | Ok x => (0, enc_src (r_sg x), map enc_atom (r_atoms x), match r_cell x with Some l => flat_map dz l | None => [] end)
   | Err EFormat => (1, [], [], []) | Err EEscapes => (2, [], [], []) | Err EUnsupported => (3, [], [], [])
   end.
-Definition pi_q : Q := @PI@.
-Definition eps_q : Q := @EPS@.
-""".replace("@PI@", q(PI_Q)).replace("@EPS@", q(EPS_Q))
+Definition pi_q : dec := @PI@.
+Definition eps_q : dec := @EPS@.
+""".replace("@PI@", fx(F(math.pi))).replace("@EPS@", fx(EPS_Q))
 
 
 def coq_case(b):
     L = lattice(b["cellnum"])
-    return "Eval vm_compute in enc (read_cif (QE pi_q eps_q %s %s %d) find_fast Tb_fast %s)." % (coq_lat(L), qm(L["recbase"]), GRID, coq_block(b))
+    return "Eval vm_compute in enc (read_cif (DE pi_q eps_q %s %s %d) find_fast Tb_fast %s)." % (coq_lat(L), qm(L["recbase"]), GRID, coq_block(b))
 
 
 TOK = re.compile(r'"((?:[^"]|"")*)"|(-?\d+)')
@@ -405,6 +422,10 @@ def parse_results(out):
         toks = [(m.group(1).replace('""', '"'), None) if m.group(1) is not None else (None, int(m.group(2))) for m in TOK.finditer(ch.replace("%string", "").replace("%Z", ""))]
         res.append(toks)
     return res
+
+
+def dval(m, e):
+    return F(m) * F(10) ** e
 
 
 def decode(toks):
@@ -423,12 +444,12 @@ def decode(toks):
         nums = [t[1] for t in rest[i + 2:i + 2 + 4 + 2 + 18]]
         pos = nums[0:3]
         an = bool(nums[3])
-        occ = F(nums[4], nums[5])
-        U = [[F(nums[6 + 2 * (3 * r + c)], nums[7 + 2 * (3 * r + c)]) for c in range(3)] for r in range(3)]
+        occ = dval(nums[4], nums[5])
+        U = [[dval(nums[6 + 2 * (3 * r + c)], nums[7 + 2 * (3 * r + c)]) for c in range(3)] for r in range(3)]
         atoms.append({"label": lab, "element": el, "pos": [F(p, GRID) for p in pos], "aniso": an, "occ": occ, "U": U})
         i += 2 + 24
     cell = [t[1] for t in rest[i:]]
-    cell = [F(cell[2 * k], cell[2 * k + 1]) for k in range(len(cell) // 2)]
+    cell = [dval(cell[2 * k], cell[2 * k + 1]) for k in range(len(cell) // 2)]
     return {"status": "ok", "src": src, "atoms": atoms, "cell": cell}
 
 
